@@ -1,4 +1,5 @@
 import BdModel.Sched.Defs
+import BdModel.Proofs.Sched.OrderInv3
 /- helper lemmas + main proofs for C01 and C02 -/
 namespace BdModel.Sched
 
@@ -7,7 +8,43 @@ theorem done_stable (c : Cfg) (hn : NoRep c) (hf : c.tdFaults = false)
     (s s' : State) (hr : Reach c s) (a : Act) (hs : step c s a = some s') (d : Nat)
     (h : Licensed c s d ∧ Settled s d) :
     Licensed c s' d ∧ Settled s' d ∧ (s'.nd d).execs = (s.nd d).execs := by
-  sorry
+  have hae := aePc_norep c hn
+  have hL := inv_launching c hn _ hr
+  simp only [Licensed, Settled, PC.active_false_iff] at h ⊢
+  explode_step a hs <;> grind
+
+/-- (L) a licensed node has no active worker -/
+theorem licensed_settled (c : Cfg) (hn : NoRep c) (s : State) (hr : Reach c s) (d : Nat)
+    (h : Licensed c s d) : Settled s d := by
+  have := inv_node c hn s hr d
+  simp only [Licensed, Settled, PC.active_false_iff, NodeOK] at *
+  grind
+
+/-- the readiness gate has been passed for `i` at some time -/
+def Trig (s : State) (i : Nat) : Prop :=
+  s.loop = .launching i ∨ 0 < (s.nd i).launches ∨ (s.nd i).preSkip = true
+
+theorem trig_step (c : Cfg) (s s' : State) (a : Act)
+    (hs : step c s a = some s') (i : Nat) (ht : Trig s' i) :
+    Trig s i ∨ ((isReady c s i).1 = true ∧ s'.nd = s.nd) := by
+  have hR := isReady_true c
+  simp only [Trig] at ht ⊢
+  explode_step a hs <;> grind
+
+/-- (K) once the gate has been passed for `i`, all dependencies are licensed and settled, forever -/
+theorem inv_deps (c : Cfg) (hn : NoRep c) (hf : c.tdFaults = false) (s : State) (hr : Reach c s) :
+    ∀ i, Trig s i → ∀ d ∈ (c.node i).deps, Licensed c s d ∧ Settled s d := by
+  induction hr with
+  | init => intro i h; simp [Trig, init] at h
+  | @step s s' a hr hs ih =>
+    intro i ht d hd
+    rcases trig_step c s s' a hs i ht with h | ⟨h1, h2⟩
+    · have := done_stable c hn hf s s' hr a hs d (ih i h d hd)
+      exact ⟨this.1, this.2.1⟩
+    · have hl := (isReady_true c s i h1).2 d hd
+      have hse := licensed_settled c hn s hr d hl
+      simp only [Licensed, Settled, h2] at *
+      exact ⟨hl, hse⟩
 
 /-- readiness gate: whenever a worker of `i` exists that has not finished its executions,
     or the loop has decided to launch `i`, every dependency is licensed and settled -/
@@ -15,13 +52,143 @@ theorem deps_done (c : Cfg) (hw : WF c) (hn : NoRep c) (hf : c.tdFaults = false)
     (s : State) (hr : Reach c s) (i : Nat) (hi : i < c.n)
     (hp : (s.nd i).pc.active = true ∨ s.loop = .launching i) :
     ∀ d ∈ (c.node i).deps, Licensed c s d ∧ Settled s d := by
-  sorry
+  have _ := hw; have _ := hi
+  apply inv_deps c hn hf s hr i
+  rcases hp with hp | hp
+  · have := (inv_node c hn s hr i).2.2.2.2.1
+    simp only [PC.active_true_iff] at hp
+    right; left; apply this; grind
+  · exact Or.inl hp
+
+theorem isFinished_iff (c : Cfg) (s : State) :
+    isFinished c s = true ↔ ∀ j, j < c.n → (s.nd j).status ≠ .running ∧ (s.nd j).status ≠ .none := by
+  simp [isFinished]
+
+def LoopPC.done : LoopPC → Bool
+  | .waiting | .handlers _ | .returned => true
+  | _ => false
+
+theorem loopDone_iff (s : State) : LoopDone s ↔ s.loop.done = true := by
+  cases h : s.loop <;> simp [LoopDone, LoopPC.done, h]
+
+theorem inv_final (c : Cfg) (hn : NoRep c) (s : State) (hr : Reach c s) :
+    s.canceled = false → LoopDone s → ∀ i, i < c.n → (s.nd i).status ≠ .none ∧ (s.nd i).status ≠ .running := by
+  induction hr with
+  | init => simp [loopDone_iff, LoopPC.done, init]
+  | @step s s' a hr hs ih =>
+    intro hc hl i hi
+    have hae := aePc_norep c hn
+    have hL := inv_launching c hn _ hr
+    have hB := fun j => (inv_live c hn _ hr j).1
+    have hF := (isFinished_iff c s).1
+    simp only [loopDone_iff] at ih hl
+    explode_step a hs <;> grind [LoopPC.done]
 
 /-- a run that ended without stop: every node is terminal -/
 theorem final_terminal (c : Cfg) (hn : NoRep c)
     (s : State) (hr : Reach c s) (hc : s.canceled = false) (hl : LoopDone s)
     (i : Nat) (hi : i < c.n) : Terminal (s.nd i).status := by
-  sorry
+  have := inv_final c hn s hr hc hl i hi
+  revert this
+  cases (s.nd i).status <;> simp [Terminal]
+
+/-- error / skipped statuses are final; so is `cancel` as long as the run is neither stopped nor timed out -/
+theorem stable_step (c : Cfg) (hn : NoRep c) (s s' : State) (hr : Reach c s) (a : Act)
+    (hs : step c s a = some s') (d : Nat) :
+    ((s.nd d).status = .error → (s'.nd d).status = .error) ∧
+    ((s.nd d).status = .skipped → (s'.nd d).status = .skipped) ∧
+    (s'.canceled = false → s'.timedOut = false → (s.nd d).status = .cancel → (s'.nd d).status = .cancel) := by
+  have hae := aePc_norep c hn
+  have hL := inv_launching c hn _ hr
+  have hK := inv_node c hn _ hr d
+  have hV := inv_live c hn _ hr d
+  simp only [NodeOK, NodeLive] at hK hV
+  explode_step a hs <;> grind
+
+/-- how a node can get (or keep) a label in one step -/
+theorem label_step (c : Cfg) (hn : NoRep c) (s s' : State) (hr : Reach c s) (a : Act)
+    (hs : step c s a = some s') (i : Nat) :
+    ((s'.nd i).status ≠ .running → (s'.nd i).launches = (s.nd i).launches) ∧
+    ((s.nd i).preSkip = true → (s'.nd i).preSkip = true) ∧
+    (s'.canceled = false → s'.timedOut = false → (s'.nd i).status = .cancel →
+      (s.nd i).status = .cancel ∨ ((s.nd i).status = .none ∧ (isReady c s i).2 = some .cancel)) ∧
+    ((s'.nd i).status = .skipped →
+      (s.nd i).status = .skipped ∨ ((s.nd i).status = .none ∧ (isReady c s i).2 = some .skipped) ∨
+      (s'.nd i).preSkip = true) := by
+  have hae := aePc_norep c hn
+  have hK := inv_node c hn _ hr i
+  simp only [NodeOK] at hK
+  explode_step a hs <;> grind
+
+theorem isReady_none_of_licensed (c : Cfg) (s : State) (i : Nat)
+    (h : ∀ d ∈ (c.node i).deps, Licensed c s d) : (isReady c s i).2 = none := by
+  cases hl : (isReady c s i).2 with
+  | none => rfl
+  | some lab =>
+    obtain ⟨d, hd, hb⟩ := isReady_label c s i lab hl
+    have := h d hd
+    simp only [Licensed] at this
+    grind
+
+/-- labels written by the loop are justified by a blocking dependency -/
+def LabelOK (c : Cfg) (s : State) (i : Nat) : Prop :=
+  (s.canceled = false → s.timedOut = false → (s.nd i).status = .cancel →
+     (s.nd i).launches = 0 ∧ ∃ d ∈ (c.node i).deps,
+       ((s.nd d).status = .error ∧ (c.node d).contFail = false) ∨ (s.nd d).status = .cancel) ∧
+  ((s.nd i).status = .skipped →
+     (s.nd i).preSkip = true ∨ ((s.nd i).launches = 0 ∧ ∃ d ∈ (c.node i).deps,
+       (s.nd d).status = .skipped ∧ (c.node d).contSkip = false))
+
+theorem inv_label (c : Cfg) (hn : NoRep c) (hf : c.tdFaults = false) (s : State) (hr : Reach c s) :
+    ∀ i, LabelOK c s i := by
+  induction hr with
+  | init => intro i; simp [LabelOK, init]
+  | @step s s' a hr hs ih =>
+    intro i
+    have hm := step_flags_mono c s s' a hs
+    have hl := label_step c hn s s' hr a hs i
+    have hst := stable_step c hn s s' hr a hs
+    have hd := inv_deps c hn hf s hr i
+    have hno := isReady_none_of_licensed c s i
+    have hlab := isReady_label c s i
+    have hi := ih i
+    simp only [LabelOK, Trig] at hi hd ⊢
+    refine ⟨?_, ?_⟩
+    · intro hc ht hcan
+      obtain ⟨hc0, ht0⟩ := And.intro (hm.1 hc) (hm.2 ht)
+      have hla := hl.1 (by simp [hcan])
+      rcases hl.2.2.1 hc ht hcan with h | ⟨h1, h2⟩
+      · obtain ⟨h0, d, hdd, hb⟩ := hi.1 hc0 ht0 h
+        refine ⟨by omega, d, hdd, ?_⟩
+        have := hst d
+        grind
+      · obtain ⟨d, hdd, hb⟩ := hlab _ h2
+        refine ⟨?_, d, hdd, ?_⟩
+        · have : ¬ (0 < (s.nd i).launches) := by
+            intro hpos
+            have := hno (fun d hd' => (hd (Or.inr (Or.inl hpos)) d hd').1)
+            simp [this] at h2
+          omega
+        · have := hst d
+          grind
+    · intro hsk
+      have hla := hl.1 (by simp [hsk])
+      rcases hl.2.2.2 hsk with h | ⟨h1, h2⟩ | h
+      · rcases hi.2 h with hp | ⟨h0, d, hdd, hb⟩
+        · exact Or.inl (hl.2.1 hp)
+        · refine Or.inr ⟨by omega, d, hdd, ?_⟩
+          have := hst d
+          grind
+      · obtain ⟨d, hdd, hb⟩ := hlab _ h2
+        refine Or.inr ⟨?_, d, hdd, ?_⟩
+        · have : ¬ (0 < (s.nd i).launches) := by
+            intro hpos
+            have := hno (fun d hd' => (hd (Or.inr (Or.inl hpos)) d hd').1)
+            simp [this] at h2
+          omega
+        · have := hst d
+          grind
+      · exact Or.inl h
 
 /-- local consistency of labels (holds in every reachable state of an unstopped run) -/
 theorem label_consistent (c : Cfg) (hw : WF c) (hn : NoRep c) (hf : c.tdFaults = false)
@@ -36,6 +203,26 @@ theorem label_consistent (c : Cfg) (hw : WF c) (hn : NoRep c) (hf : c.tdFaults =
          ∃ d ∈ (c.node i).deps, (s.nd d).status = .skipped ∧ (c.node d).contSkip = false)) ∧
     (((s.nd i).status = .success ∨ (s.nd i).status = .error ∨ (s.nd i).status = .running) →
         ∀ d ∈ (c.node i).deps, Licensed c s d) := by
-  sorry
+  have _ := hw; have _ := hi
+  have hK := inv_node c hn s hr i
+  have hLab := inv_label c hn hf s hr i
+  have hD := inv_deps c hn hf s hr i
+  simp only [NodeOK, LabelOK, Trig] at hK hLab hD
+  refine ⟨?_, ?_, ?_⟩
+  · intro h
+    obtain ⟨h0, hex⟩ := hLab.1 hc ht h
+    exact ⟨by grind, hex⟩
+  · intro h
+    rcases hLab.2 h with hp | ⟨h0, hex⟩
+    · exact Or.inl ⟨hp, by grind, fun d hd => (hD (Or.inr (Or.inr hp)) d hd).1⟩
+    · exact Or.inr ⟨by grind, hex⟩
+  · intro h d hd
+    have hpos : 0 < (s.nd i).launches := by grind
+    exact (hD (Or.inr (Or.inl hpos)) d hd).1
 
 end BdModel.Sched
+
+#print axioms BdModel.Sched.done_stable
+#print axioms BdModel.Sched.deps_done
+#print axioms BdModel.Sched.final_terminal
+#print axioms BdModel.Sched.label_consistent
